@@ -202,7 +202,7 @@ def run_property(pid, tier, use_cache=True, njobs=16, only=None, verbose=False):
         rc = 2
 
     write_evidence(pid, tier, seed, meta, js, per_job, n_obl, n_ok, samples, violations, known_hits,
-                   undecided, time.time() - t0, native_replays=len(kf_replayed) + len(reported))
+                   undecided, time.time() - t0, native_replays=len(kf_replayed) + len(reported), partial=bool(only) or core.REPO != "/repo")
     print("[%s] tier=%s jobs=%d obligations=%d discharged=%d known=%d violations=%d undecided=%d wall=%.0fs -> exit %d" % (
         pid, tier, len(js), n_obl, n_ok, len(seen_kf), len(reported), len(undecided), time.time() - t0, rc),
         file=sys.stderr)
@@ -223,7 +223,7 @@ def match_known(known, pid, jobname, tag, o):
 
 
 def write_evidence(pid, tier, seed, meta, js, per_job, n_obl, n_ok, samples, violations, known_hits,
-                   undecided, wall, native_replays=0):
+                   undecided, wall, native_replays=0, partial=False):
     level = meta["level"]
     fns = sorted({j.enforce for j in js if j.enforce})
     cov = {
@@ -269,7 +269,7 @@ def write_evidence(pid, tier, seed, meta, js, per_job, n_obl, n_ok, samples, vio
         "violations": len({v[0] for v in violations}),
     }
     os.makedirs(os.path.join(core.VERIF, "evidence"), exist_ok=True)
-    p = os.path.join(core.VERIF, "evidence", pid + ".json")
+    p = os.path.join(core.VERIF, "evidence", pid + (".partial" if partial else "") + ".json")
     with open(p + ".tmp", "w") as f:
         json.dump(ev, f, indent=1)
     os.replace(p + ".tmp", p)
